@@ -76,9 +76,34 @@ where
     let mut scope = Scope {
         dtors: RefCell::new(None),
     };
-    let ret = f(&scope);
-    scope.drop_all();
-    ret
+    // the scope must not be left, neither normally nor by unwinding, before all its
+    // coroutines have finished. joining them must not happen in the middle of an
+    // unwind (a coroutine can't switch its stack there) and must not be a
+    // cancellation point (a cancelled owner would not wait at all): catch the
+    // panic, join with the cancel disabled, and go on with the panic afterwards
+    let mut ret = panic::catch_unwind(panic::AssertUnwindSafe(|| f(&scope)));
+    let cancel = if crate::coroutine_impl::is_coroutine() {
+        Some(crate::coroutine_impl::current_cancel_data())
+    } else {
+        None
+    };
+    if let Some(c) = cancel {
+        c.disable_cancel();
+    }
+    // a join re-raises the panic of its coroutine, keep the first panic and
+    // continue with the remaining joins
+    while let Err(e) = panic::catch_unwind(panic::AssertUnwindSafe(|| scope.drop_all())) {
+        if ret.is_ok() {
+            ret = Err(e);
+        }
+    }
+    if let Some(c) = cancel {
+        c.enable_cancel();
+    }
+    match ret {
+        Ok(r) => r,
+        Err(e) => panic::resume_unwind(e),
+    }
 }
 
 impl fmt::Debug for Scope<'_> {
